@@ -4,6 +4,14 @@ import json, sys
 pid, tag = sys.argv[1], sys.argv[2]
 p = next(json.loads(l) for l in open("/verif/properties.jsonl") if json.loads(l)["id"] == pid)
 wt, out = f"/tmp/seed/{pid}{tag}", f"/tmp/seed/out-{pid}{tag}"
+import glob, os
+prior = []
+for m in sorted(glob.glob(f"/verif/seeded/{pid}-*/meta.json")):
+    try:
+        prior.append("- " + json.load(open(m))["what"][:300])
+    except Exception:
+        pass
+avoid = ("\n\nOther people already produced the following changes for this property; yours must be DIFFERENT in mechanism and location (do not repeat or trivially vary them):\n" + "\n".join(prior)) if prior else ""
 print(f"""You are helping evaluate a verification effort on the Python library rdflib by writing realistic *breaking changes* (seeded defects). You work ONLY inside the git worktree `{wt}` (a checkout of rdflib) and the output directory `{out}` (create it). Python is `/venv/bin/python`; ALWAYS run things with `PYTHONPATH={wt}` so that this checkout is imported (check once: `cd {wt} && PYTHONPATH={wt} /venv/bin/python -c "import rdflib; print(rdflib.__file__)"` must print a path under {wt}). Do not read or write anything under /verif or /repo or other directories of /tmp/seed. There is no network. NEVER use `git stash` (the stash is shared with other worktrees); to go back to the clean tree use `git checkout -- rdflib`, and use `git apply` / `git apply -R` with your saved patch files.
 
 The property that should hold of rdflib:
@@ -17,7 +25,7 @@ Your task: produce THREE different, independent changes to rdflib's source (unde
 2. still imports, and still passes rdflib's existing test suite: run the test files relevant to the code you touch with and without the change, and at the end the full suite once per change if you can afford it (`cd {wt} && PYTHONPATH={wt} /venv/bin/python -m pytest -q -p no:cacheprovider --timeout=900 2>&1 | tail -5`, ~3–6 minutes; about 24 pre-existing failures (network/subprocess) exist on the clean checkout too — compare the summary line and the set of failing tests against a clean run),
 3. looks like a plausible mistake, refactoring slip or "optimisation" a maintainer could make (no sabotage with obviously dead or bizarre code), and
 4. needs something SPECIFIC to manifest — a particular multi-step sequence of operations, an unusual input (a particular kind of term, an empty/falsy value, a particular graph shape or name, a wildcard in a particular position), a particular interleaving, a particular configuration/option, or two cooperating sites that each look fine alone — NOT something that the most ordinary use exposes at once.
-Make the three changes different in kind and in the code they touch (different functions, preferably different files among those listed above).
+Make the three changes different in kind and in the code they touch (different functions, preferably different files among those listed above).{avoid}
 
 For each change i ∈ {{1,2,3}} write into `{out}/<i>/`:
 * `patch.diff` — `git diff` of ONLY that change against the clean checkout (apply one change at a time; `git checkout -- rdflib` between them),
